@@ -386,7 +386,8 @@ class TestCaseExecutor(AbstractTestCaseExecutor):
             thread.join(
                 timeout=min(
                     self._maximum_test_execution_timeout,
-                    self._test_execution_time_per_statement * test_case.size(),
+                    # An empty test case also needs time to get started and to finish
+                    self._test_execution_time_per_statement * max(1, test_case.size()),
                 )
             )
             if thread.is_alive():
